@@ -14,6 +14,7 @@ THEOREMS = [_T + n for n in [
     "re_unescape_escape",
     "valid_ip_spec", "valid_ip_rejects", "valid_ip_noname", "valid_ip_ascii",
     "url_concat_none", "url_concat_nil_noquery",
+    "param_roundtrip", "civil_roundtrip", "timestamp_roundtrip", "url_concat_preserves",
 ]]
 TRUSTED = [
     "CPython `re` on the five small patterns involved (_ABNF.request_line/status_line, _netloc_re with Unicode \\d, "
@@ -46,10 +47,12 @@ CLAUSES = {
         "(known finding: malformed RFC 2231 continuations/charsets raise TypeError/ValueError/UnicodeError)",
     "cookie parser never raises": "tie only: the model parseCookie is a total function without an error outcome; the oracle checks the implementation",
     "host/port splitter never raises": "splitHostPort_total, splitHostPortOld_raises_iff (after fix 7eb1536)",
-    "token-valued header parameters round-trip through encoding": "tie only: param_roundtrip_goal stated; oracle on every `encode` case",
-    "HTTP timestamps round-trip through formatting and parsing": "tie only: civil_roundtrip_goal, timestamp_roundtrip_goal stated; oracle on every `ts` case",
+    "token-valued header parameters round-trip through encoding": "param_roundtrip (token key, sorted lower-case token names "
+        "not of RFC 2231 shape, token values); oracle on every `encode` case",
+    "HTTP timestamps round-trip through formatting and parsing": "timestamp_roundtrip (whole seconds, years 1970-9999), "
+        "civil_roundtrip (days <-> civil date); oracle on every `ts` case",
     "url_concat preserves existing query pairs and fragment and appends the arguments":
-        "url_concat_none, url_concat_nil_noquery; tie only: url_concat_preserves_goal stated; oracle on every `url` case",
+        "url_concat_preserves (text without lone surrogates), url_concat_none, url_concat_nil_noquery; oracle on every `url` case",
     "re_unescape inverts re.escape": "re_unescape_escape",
     "is_valid_ip accepts plain IPv4/IPv6, rejects host names, empty strings, NUL":
         "valid_ip_spec, valid_ip_rejects, valid_ip_noname, valid_ip_ascii; host names rejected by the resolver: getaddrinfo contract, tie only",
